@@ -193,8 +193,8 @@ def evalCase (s : S) (d : Doc) : IO Unit := do
       fields := "render=diff" :: fields
       extra := s!"RENDERDIFF model={oneLine r} impl={oneLine o}" :: extra
   | none => pure ()
-  -- certificates on the implementation's document
-  fields := (if lcSafe d then "lc=ok" else "lc=viol") :: fields
+  -- certificates on the implementation's document (lc: below, with the model's ghost tags when
+  -- the two documents are syntactically equal)
   match s.doc1 with
   | some d1 =>
     fields := (if scale s.cfg.tab d1 == d then "scale=eq" else "scale=diff") :: fields
@@ -229,6 +229,7 @@ def evalCase (s : S) (d : Doc) : IO Unit := do
     if let some c := s.cnt then
       fields := (if c == calls then "count=eq" else s!"count=diff:{calls}:{c}") :: fields
     let me := m.erase
+    fields := (if (if me == d then lcSafe m else lcSafe d) then "lc=ok" else "lc=viol") :: fields
     if me == d then fields := "doc=eq" :: fields
     else
       let diffs := sweepDiffs me d s.pairCap
@@ -240,6 +241,7 @@ def evalCase (s : S) (d : Doc) : IO Unit := do
           extra := s!"PAIR {s.gen} {s.idx} {w} {hex a} {hex b}" :: extra
     fields := (if lcSafe m then "mlc=ok" else "mlc=viol") :: fields
   | .error e =>
+    fields := (if lcSafe d then "lc=ok" else "lc=viol") :: fields
     fields := s!"reject={(toString (repr e)).replace " " "_" |>.replace "\n" "_"}" :: fields
   if s.xshape != "" then fields := s!"xshape={s.xshape}" :: fields
   IO.println s!"R {s.gen} {s.idx} {" ".intercalate fields.reverse}"
@@ -248,12 +250,16 @@ def evalCase (s : S) (d : Doc) : IO Unit := do
 def evalRange (s : S) (a b : Nat) (res : Option (Nat × Nat × String)) : IO Unit := do
   let some t := s.etree | IO.println s!"R {s.gen} {s.idx} error=no-tree"
   let m := formatRange s.cfg (fun x => x.length) s.src t a b
+  -- by-construction certificate of the replacement document (C13 with C01/C06/C07/C08/C10)
+  let cert := match formatRangeDoc s.cfg (fun x => x.length) s.src t a b with
+    | .ok node _ _ d _ => if rangeCertified s.cfg.reorder node d then "rcert=ok" else "rcert=viol"
+    | _ => "rcert=na"
   match m, res with
   | .refused, none => IO.println s!"R {s.gen} {s.idx} range=eq"
   | .ok rs re txt, some (rs', re', txt') =>
     if rs == rs' && re == re' then
-      if txt == txt' || !(isAscii txt') then IO.println s!"R {s.gen} {s.idx} range=eq text={if txt == txt' then "eq" else "skip-nonascii"}"
-      else IO.println s!"R {s.gen} {s.idx} range=eq text=diff\nRANGETEXT model={oneLine txt} impl={oneLine txt'}"
+      if txt == txt' || !(isAscii txt') then IO.println s!"R {s.gen} {s.idx} range=eq text={if txt == txt' then "eq" else "skip-nonascii"} {cert}"
+      else IO.println s!"R {s.gen} {s.idx} range=eq text=diff {cert}\nRANGETEXT model={oneLine txt} impl={oneLine txt'}"
     else IO.println s!"R {s.gen} {s.idx} range=diff model={rs}..{re} impl={rs'}..{re'}"
   | .rejected e, _ => IO.println s!"R {s.gen} {s.idx} reject={(e.replace " " "_").replace "\n" "_"}"
   | .refused, some (rs', re', _) => IO.println s!"R {s.gen} {s.idx} range=diff model=refused impl={rs'}..{re'}"
